@@ -18,7 +18,7 @@ META = {
                    'solver / integrator / data-driven routine (sle.als/mals, evp.als with 1 and 2 eigenpairs, power_method, explicit/implicit Euler, '
                    'trapezoidal, HOD with and without previous_value, TDVP 1/2-site, Krylov, the four splitting schemes, errors_*, tdmd, AMUSEt, ARR, MANDy, '
                    'tgEDMD) on symbolic arguments under fresh symbolic LAPACK outputs: every tensor-train argument keeps value and metadata, every returned '
-                   'train is consistent, and ortho_left()/ortho_right() on one returned train leaves the arguments and all other returned trains unchanged. stateless: each of 18 routines called with arguments that were used in an earlier call and then changed in place (cores replaced) returns what it returns for fresh objects holding the new values -- no memoised intermediate, module-level cache or default-argument list survives a call.',
+                   'train is consistent, and ortho_left()/ortho_right() on one returned train leaves the arguments and all other returned trains unchanged. stateless: each of 18 routines called with arguments that were used in an earlier call and then changed in place (cores replaced) returns what it returns for fresh objects holding the new values -- no memoised intermediate, module-level cache or default-argument list survives a call. Over-parameterised arguments (rank 3 on modes of size 2), which any orthonormalisation of the caller\'s object would shrink, are part of the routines grid.',
     'bounds': {'quick': 'pool shapes {[2,1,2] with ranks [1,1,2,1] / operator ranks [1,2,1,1]} and {[2,2] ranks [1,2,1]}; all histories P;Q '
                         '(~35 P x 12 Q x every live target); real data',
                'thorough': 'additionally all histories P1;P2;Q with P2 consuming the result of P1, complex data, a third pool shape'},
